@@ -82,10 +82,12 @@ def columnsOf (d : Dict) : Except Err (Option Int) :=
   | some (.int i) => .ok (some i)
   | some _ => .error .unmodelled
 
-/-- `ccittfaxdecode(data, params)` on a parameter object as `get_filters` hands it over. -/
+/-- `ccittfaxdecode(data, params)` on a parameter object as `get_filters` hands it over.  Anything
+that is not a dictionary (the null entry of a DecodeParms array, but also a number, a name, an
+array, …) stands for "all defaults": `if not isinstance(params, dict): params = {}`, hence K is
+absent and the stream is reported as not Group 4. -/
 def ccittBranch (p : PObj) (data : List UInt8) : Except Err (List UInt8) :=
   match p with
-  | .null => ccittfaxdecode none none false false data       -- `if params is None: params = {}`
   | .dict d =>
     match kOf d with
     | .error e => .error e
@@ -94,7 +96,7 @@ def ccittBranch (p : PObj) (data : List UInt8) : Except Err (List UInt8) :=
       match columnsOf d, flagOf d CcittStream.keyAlign, flagOf d CcittStream.keyBlackIs1 with
       | .ok c, .ok al, .ok rv => ccittfaxdecode k c al rv data
       | _, _, _ => .error .unmodelled
-  | _ => .error .unmodelled
+  | _ => ccittfaxdecode none none false false data
 
 /-- `params and "Predictor" in params` -/
 def hasPredictor : PObj → Bool
